@@ -7,7 +7,7 @@ import Mathlib.Tactic.SplitIfs
     `get_derived_quantities` = `derivedQuantities`, `is_constant` = `isConstant` — the functions the theorems of
     `Props/C10.lean` are about. -/
 
-namespace Cellml.Tie
+namespace Cellml.Tie.PRoles
 open Model Cellml.Gen
 
 -- ------------------------------------------------------------------------------------------------ helpers
@@ -161,4 +161,4 @@ theorem isConstant_tie (M : RModel) (v : Nat) : Gen.Roles.isConstant M v = .ok (
     simp only [pure, Except.pure, Option.isSome_some, Bool.true_and, Option.map_some]
     cases (M.rhs e.tok).vars <;> rfl
 
-end Cellml.Tie
+end Cellml.Tie.PRoles
